@@ -95,11 +95,29 @@ pub fn c02(out: &mut Vec<String>, rng: &mut Rng, tier: &str) {
                 st4.population(), st4.successes(), enc_cires(&st.ci(conf))
             )
         });
+        // a predicate with memory (a quota: the first q calls succeed): every element is counted once, in order
+        let q = (t + 1).max(0) as usize;
+        let o8 = guarded(|| {
+            let calls = std::cell::Cell::new(0usize);
+            let mut st = proportion::Stats::default();
+            st.extend_if(&data, |_: &i64| {
+                let c = calls.get();
+                calls.set(c + 1);
+                c < q
+            });
+            let calls2 = std::cell::Cell::new(0usize);
+            let r = proportion::ci_if(conf, &data, |_: &i64| {
+                let c = calls2.get();
+                calls2.set(c + 1);
+                c < q
+            });
+            format!("{} {} {}", st.population(), st.successes(), enc_cires(&r))
+        });
         let mut l = format!("C02 frontends p {} {} {}", enc_conf(&conf), t, n);
         for x in &data {
             l.push_str(&format!(" {}", x));
         }
-        out.push(format!("{} => {} | {} | {} | {} | {} | {} | {}", l, o1, o2, o3, o4, o5, o6, o7));
+        out.push(format!("{} => {} | {} | {} | {} | {} | {} | {} | {}", l, o1, o2, o3, o4, o5, o6, o7, o8));
     }
     // running Stats driven by a sequence of operations (chunks on a state that already holds counts)
     let reps = if tier == "thorough" { 3000 } else { 400 };
